@@ -84,6 +84,19 @@ def counter_model(ob, col):
     return inputs
 
 
+def _claimed_level(prop: str) -> str:
+    """the level category claimed in MANIFEST.json: `proof` where the property's central kernels are proved, `exploration` where
+    the statement itself is decided only by the bounded tier (the proved kernels are then auxiliary)"""
+    try:
+        m = json.load(open(os.path.join(ROOT, "MANIFEST.json")))
+        for c in m["checks"]:
+            if c["property_id"] == prop:
+                return c["level_claimed"]["category"]
+    except Exception:
+        pass
+    return "proof"
+
+
 def run_check(prop: str, tier: str, seed: int, only=None):
     t0 = time.time()
     load_contracts()
@@ -93,8 +106,9 @@ def run_check(prop: str, tier: str, seed: int, only=None):
     timeout_ms = 10000 if tier == "quick" else 60000
     for ob in res.obligations:
         pass
-    solve(res, timeout_ms=timeout_ms)
     known = load_known()
+    res.no_retry = {k["obligation"] for k in known.get("findings", []) if k["property"] == prop}
+    solve(res, timeout_ms=timeout_ms)
     known_for = [k for k in known.get("findings", []) if k["property"] == prop]
     lines = []
     violations = []
@@ -281,7 +295,7 @@ def run_check(prop: str, tier: str, seed: int, only=None):
             assumptions += [f"{q}: {a}" for a in c.assumptions]
     assumptions += [f"BOUNDED: {b}" for b in sorted(col.bounded)]
     ev = {
-        "property_id": prop, "tier": tier, "seed": seed, "level": "proof",
+        "property_id": prop, "tier": tier, "seed": seed, "level": _claimed_level(prop),
         "coverage": {
             "obligations": total, "discharged": proved,
             "checker_cmd": f"./check {prop} --tier {tier}",
